@@ -245,7 +245,7 @@ type task =
 | TDelayed of nat * nat * bool
 
 type ptok = { p_idle : (nat * n) list; p_waiting : (nat * bool) list;
-              p_marker : bool }
+              p_marker : nat option }
 
 val empty_tok : ptok
 
@@ -312,7 +312,7 @@ val set_idle : (nat * n) list -> ptok -> ptok
 
 val set_waiting : (nat * bool) list -> ptok -> ptok
 
-val set_marker : bool -> ptok -> ptok
+val set_marker : nat option -> ptok -> ptok
 
 val c_set_refs : nat -> conn -> conn
 
@@ -374,7 +374,7 @@ val drop_sender : nat -> state -> state
 
 val release_pending : (nat * bool) list -> state -> (nat * bool) list * state
 
-val pool_cancel : nat -> state -> state
+val pool_cancel : nat -> nat -> state -> state
 
 val drop_all : (nat * n) list -> state -> state
 
@@ -641,7 +641,7 @@ val mon_C03 : config -> op list -> bool -> opobs list -> bool
 
 val share_conn_since : mst -> key option -> nat -> bool
 
-val h2_flying : config -> mst -> nat -> key option -> bool
+val h2_flying : bool -> config -> mst -> nat -> key option -> bool
 
 val chk_ev_C04 : bool -> config -> opobs -> mst -> ev -> bool
 
